@@ -341,6 +341,11 @@ func augParams(c *Ctx, a *flAgg) {
 			}
 		}
 		want := h1 && !recvNil && h2 && one && h3 && star
+		// a helper may hand the receiver field back as a pointer that the caller
+		// tests: go/parser never leaves a nil *ast.Field in a list
+		if isNil, have := p.lit("(" + recv0 + " == nil)"); have && isNil {
+			want = false
+		}
 		if included != want {
 			okRecv = false
 			whyRecv = fmt.Sprintf("the receiver is counted=%v on a path where 'exactly one receiver, of pointer type' is %v (%s)", included, want, litsString(p))
